@@ -27,6 +27,19 @@ NA.update({
 })
 
 
+def _note(s):
+    """Assumptions of this check in one string: tools, then the property's own trusted contracts,
+    bounded stand-ins and what is not covered (full lists are in the evidence file)."""
+    parts = ["trusted: Kani/CBMC/CaDiCaL, Verus/Z3, rustc MIR; harness and prelude text in /verif; stubs listed in the evidence file"]
+    if s.get("trusted"):
+        parts.append("assumed contracts: " + " | ".join(s["trusted"]))
+    if s.get("bounded_native"):
+        parts.append("bounded stand-ins (never counted as proved): " + " | ".join("%s [%s]" % (b["unit"], b["bound"]) for b in s["bounded_native"]))
+    if s.get("not_covered"):
+        parts.append("not covered: " + " | ".join(s["not_covered"]))
+    return " ;; ".join(parts)[:4000]
+
+
 def build():
     props = [json.loads(l) for l in open(os.path.join(C.VERIF, "properties.jsonl"))]
     checks = []
@@ -44,7 +57,7 @@ def build():
                 engine="verif-contracts",
                 level_claimed=dict(category=s["level"], text=s["level_text"] if "level_text" in s else s["text"],
                                    design_ref=s.get("design_ref", "DESIGN.md §4 " + pid)),
-                level_note=s.get("level_note", "trusted: Kani/CBMC/CaDiCaL, Verus/Z3, rustc MIR; harness and prelude text in /verif; stubs listed in the evidence file"),
+                level_note=s.get("level_note", _note(s)),
                 technique=s.get("technique", "contract-based deductive verification (Kani function-level contracts on the real crate)"),
             ))
         else:
